@@ -217,6 +217,7 @@ func main() {
 		hx.SWorker(scens)
 		return
 	}
+	hx.MaybeReplay(r, scens)
 	sum := hx.ExploreAll(r, scens, false, 0)
 	byName := map[string]hx.Scenario{}
 	for _, s := range scens {
